@@ -294,6 +294,9 @@ impl<'a> Exec<'a> {
                     }
                 }
             }
+            if temps.iter().any(|(_, (a, _))| *a != 0.0) {
+                self.stats.probe("nonzero_temperature_compared");
+            }
             for (g, (a, b)) in &temps {
                 if a.to_bits() != b.to_bits() && self.fault_free() {
                     return Err(self.viol(
